@@ -328,5 +328,25 @@ def check(run, model, tier):
     if tracked and len(pfields) >= 3:
         idarg = ctor_fields(tracked[0], pfields).get(pfields[2])
     ok = bool(rets) and idarg is not None and all(norm(r.value) == norm(idarg) for r in rets if r.value is not None)
+    if not ok and rets and idarg is not None:
+        # the id may travel in a local that starts as None for a post without a timer: what matters is what that local holds on the ways that pass the tracking record
+        from sa.hsmsites import reaching_defs
+        gpe = cfg_of(pe)
+        IN_, valmap_ = reaching_defs(gpe, pe.params)
+        tn = [n for n in gpe.nodes if n.kind not in ('entry', 'exit', 'xexit', 'def') and any(x is tracked[0] for x in n.walk())]
+        ok = bool(tn)
+        for r in rets:
+            if r.value is None or norm(r.value) == norm(idarg) or not ok:
+                continue
+            rn = [n for n in gpe.nodes if n.kind == 'stmt' and n.ast is r]
+            if not (isinstance(r.value, ast.Name) and rn and gpe.exists_path(tn[0], rn[0])):
+                ok = not (rn and gpe.exists_path(tn[0], rn[0])) and isinstance(r.value, ast.Constant) and r.value.value is None
+                continue
+            at_ret = IN_[rn[0]].get(r.value.id, set())
+            at_track = IN_[tn[0]].get(r.value.id, set())
+            later = {k for k in at_ret if k[0] != 'param' and any(m.id == k[0] and gpe.exists_path(tn[0], m) for m in gpe.nodes)}
+            cands = (at_track & at_ret) | later
+            vals = [valmap_.get(k) for k in cands]
+            ok = bool(cands) and all(v is not None and norm(v) == norm(idarg) for v in vals)
     run.inst('WIRING.timer', pe, 'the returned id is the id recorded for cancel', ok, 'returned id and tracked id differ', obligation=True)
     run.assume('time.sleep(p) returns after at least p seconds; absent cancellation nobody else clears the source\'s run flag')
